@@ -66,17 +66,33 @@ def parseItems : List String → Nat → Option (List Item)
       let l ← parseMark l
       let r ← parseMark r
       let xs ← parseItems rest nb
-      pure (.tag ⟨.var, l, r⟩ :: xs)
+      pure (.tag ⟨.var false, l, r⟩ :: xs)
+    | ['v', l, r] => do
+      let l ← parseMark l
+      let r ← parseMark r
+      let xs ← parseItems rest nb
+      pure (.tag ⟨.var true, l, r⟩ :: xs)
     | ['B', l, r] => do
       let l ← parseMark l
       let r ← parseMark r
       let xs ← parseItems rest (nb + 1)
-      pure (.tag ⟨.block (if nb % 2 = 0 then .ifT else .endif), l, r⟩ :: xs)
+      pure (.tag ⟨.block (if nb % 2 = 0 then .ifT else .endif) false, l, r⟩ :: xs)
+    | ['b', l, r] => do
+      let l ← parseMark l
+      let r ← parseMark r
+      let xs ← parseItems rest (nb + 1)
+      pure (.tag ⟨.block (if nb % 2 = 0 then .ifT else .endif) true, l, r⟩ :: xs)
     | ['C', l, r] => do
       let l ← parseMark l
       let r ← parseMark r
       let xs ← parseItems rest nb
-      pure (.tag ⟨.comment, l, r⟩ :: xs)
+      pure (.tag ⟨.comment [' ', 'c', ' '], l, r⟩ :: xs)
+    | 'K' :: l :: r :: h => do
+      let l ← parseMark l
+      let r ← parseMark r
+      let body ← unhex (String.ofList h)
+      let xs ← parseItems rest nb
+      pure (.tag ⟨.comment body, l, r⟩ :: xs)
     | 'R' :: l :: ri :: l2 :: r2 :: h => do
       let l ← parseMark l
       let ri ← parseMark ri
@@ -84,7 +100,15 @@ def parseItems : List String → Nat → Option (List Item)
       let r2 ← parseMark r2
       let c ← unhex (String.ofList h)
       let xs ← parseItems rest nb
-      pure (.tag ⟨.raw c ri l2, l, r2⟩ :: xs)
+      pure (.tag ⟨.raw c ri l2 false, l, r2⟩ :: xs)
+    | 'r' :: l :: ri :: l2 :: r2 :: h => do
+      let l ← parseMark l
+      let ri ← parseMark ri
+      let l2 ← parseMark l2
+      let r2 ← parseMark r2
+      let c ← unhex (String.ofList h)
+      let xs ← parseItems rest nb
+      pure (.tag ⟨.raw c ri l2 true, l, r2⟩ :: xs)
     | _ => none
 
 /-- plain concatenation of the items' sources -/
